@@ -474,7 +474,8 @@ def run(res: C.Result, deep: bool):
     _with_pool(go)
     seen = set(res.extra["gate_labels"])
     res.extra["gate_labels_never_seen"] = [l for l in ALL_LABELS if l not in seen]
-    res.assumptions = ["threads are interleaved only at gated operations (see TRUSTED)",
+    res.assumptions = ["every access to an object both threads can reach is a scheduling point; code between two such "
+                       "accesses touches thread-local data only (audited per run, see TRUSTED)",
                        "one recording session per collection: start(); operations; stop()"]
 
 
